@@ -29,7 +29,7 @@ func alphabet() []Ev {
 	var evs []Ev
 	for _, cl := range []string{"A", "B"} {
 		for _, ct := range []time.Duration{0, skew, -skew} {
-			for _, sv := range []string{"S1", "S2"} {
+			for _, sv := range []string{"S1", "S2", "s1"} {
 				evs = append(evs, Ev{Op: P(cl, ct, sv)})
 			}
 		}
